@@ -2199,6 +2199,7 @@ evhttp_parse_firstline_(struct evhttp_request *req, struct evbuffer *buffer)
 	enum message_read_status status = ALL_DATA_READ;
 
 	size_t len;
+	size_t before = evbuffer_get_length(buffer);
 	/* XXX try */
 	line = evbuffer_readln(buffer, &len, EVBUFFER_EOL_CRLF);
 	if (line == NULL) {
@@ -2209,12 +2210,13 @@ evhttp_parse_firstline_(struct evhttp_request *req, struct evbuffer *buffer)
 			return (MORE_DATA_EXPECTED);
 	}
 
-	if (req->evcon != NULL && len > req->evcon->max_headers_size) {
+	/* what the line took from the stream, its terminator included */
+	req->headers_size = before - evbuffer_get_length(buffer);
+	if (req->evcon != NULL &&
+	    req->headers_size > req->evcon->max_headers_size) {
 		mm_free(line);
 		return (DATA_TOO_LONG);
 	}
-
-	req->headers_size = len;
 
 	switch (req->kind) {
 	case EVHTTP_REQUEST:
@@ -2272,11 +2274,15 @@ evhttp_parse_headers_(struct evhttp_request *req, struct evbuffer* buffer)
 
 	struct evkeyvalq* headers = req->input_headers;
 	size_t len;
+	size_t before = evbuffer_get_length(buffer);
 	while ((line = evbuffer_readln(buffer, &len, EVBUFFER_EOL_CRLF))
 	       != NULL) {
 		char *skey, *svalue;
 
-		req->headers_size += len;
+		/* count the bytes of the header section as they are on the
+		 * wire: with their line terminators */
+		req->headers_size += before - evbuffer_get_length(buffer);
+		before = evbuffer_get_length(buffer);
 
 		if (req->evcon != NULL &&
 		    req->headers_size > req->evcon->max_headers_size) {
